@@ -632,12 +632,28 @@ func ssaAssertsType(c *Ctx, fn string, T types.Type) bool {
 	if f == nil {
 		return false
 	}
-	for _, ins := range instrsIn(f) {
-		if ta, ok := ins.(*ssa.TypeAssert); ok && types.Identical(ta.AssertedType, T) {
-			return true
+	// the function itself or a helper it calls directly (the consuming loop may live in a method
+	// of the same type)
+	seen := map[*ssa.Function]bool{}
+	var walk func(g *ssa.Function, depth int) bool
+	walk = func(g *ssa.Function, depth int) bool {
+		if g == nil || seen[g] || depth > 3 || len(g.Blocks) == 0 {
+			return false
 		}
+		seen[g] = true
+		for _, ins := range instrsIn(g) {
+			if ta, ok := ins.(*ssa.TypeAssert); ok && types.Identical(ta.AssertedType, T) {
+				return true
+			}
+			if call, ok := ins.(*ssa.Call); ok {
+				if callee := call.Call.StaticCallee(); callee != nil && c.G.InSc[callee] && walk(callee, depth+1) {
+					return true
+				}
+			}
+		}
+		return false
 	}
-	return false
+	return walk(f, 0)
 }
 
 func typeSwitchHasCase(pkg *packages.Package, fn string, T types.Type) bool {
